@@ -48,7 +48,7 @@ func main() { Main("c12", run) }
 // ---------- concrete description of one lattice case (JSON = replay / corpus format) ----------
 
 type docCfg struct {
-	Kind   int               `json:"kind"`            // 0 nil document, 1 no applicable statement, 2 statement selected
+	Kind   int               `json:"kind"`            // 0 nil document, 1 no applicable statement, 2 statement selected, 3 selected but its level made invalid after construction
 	Level  string            `json:"level,omitempty"` // strict | permissive | audit | skip
 	Ov     map[string]string `json:"override,omitempty"`
 	Global bool              `json:"global,omitempty"` // blob: the statement is the global one and no name is given
@@ -221,6 +221,8 @@ func docTerm(d docCfg) string {
 		return "None"
 	case 1:
 		return "(Some SelNone)"
+	case 3:
+		return "(Some SelBadLevel)"
 	}
 	return "(Some (SelLevel " + levelTerm(d) + "))"
 }
@@ -369,6 +371,14 @@ func newEnv() *env {
 func (e *env) payload(kind int) []byte {
 	d := e.desc
 	switch kind {
+	case 12:
+		// the member spelled differently (the signer's unknown-attribute check, fix 3e50767)
+		b, _ := json.Marshal(map[string]any{"TargetArtifact": d})
+		return b
+	case 13:
+		// duplicated member, the second one with foreign fields
+		b, _ := json.Marshal(d)
+		return []byte(`{"targetArtifact":` + string(b) + `,"targetArtifact":{"mediaType":"` + d.MediaType + `","digest":"` + d.Digest.String() + `","size":` + fmt.Sprint(d.Size) + `,"urls":["x"],"extra":{"a":[1]}}}`)
 	case 11:
 		d.Annotations = map[string]string{}
 		b, _ := json.Marshal(map[string]any{"targetArtifact": map[string]any{"mediaType": d.MediaType, "digest": d.Digest, "size": d.Size, "annotations": map[string]string{}}})
@@ -686,7 +696,7 @@ func (e *env) build(c *lcase, sc scCfg) (v interface {
 		opts.BlobTrustPolicy = &trustpolicy.BlobDocument{Version: "1.0", TrustPolicies: []trustpolicy.BlobTrustPolicy{{
 			Name:                  "bp",
 			SignatureVerification: trustpolicy.SignatureVerification{VerificationLevel: c.Blob.Level, Override: ovMap(c.Blob.Ov)},
-			TrustStores:           st, TrustedIdentities: id, GlobalPolicy: c.Blob.Global && c.Blob.Kind == 2,
+			TrustStores:           st, TrustedIdentities: id, GlobalPolicy: c.Blob.Global && c.Blob.Kind >= 2,
 		}}}
 	}
 	// revocation validator scripted after the scenario
@@ -784,6 +794,13 @@ func (e *env) build(c *lcase, sc scCfg) (v interface {
 	vv, err := verifier.NewVerifierWithOptions(store, opts)
 	if err != nil {
 		return nil, mgr, err
+	}
+	// the caller edits the document it handed over, after the constructor validated it
+	if c.OCI.Kind == 3 {
+		opts.OCITrustPolicy.TrustPolicies[0].SignatureVerification.VerificationLevel = "no such level"
+	}
+	if c.Blob.Kind == 3 {
+		opts.BlobTrustPolicy.TrustPolicies[0].SignatureVerification.VerificationLevel = ""
 	}
 	return vv, mgr, nil
 }
@@ -1081,10 +1098,12 @@ func run(a *Args) error {
 				continue
 			}
 			c.Fam = "corpus"
+			normalize(&c)
 			emit(&c)
 		}
 	}
 	genLattice(a, rng, emit, history)
+	w.Set("partial", "the theorems cover the nil-ability lattice of notation-go's own structures (configuration x level x entry point x what the dependencies answer); crash-freedom of the third-party decoders (notation-core-go JWS/COSE, encoding/json, fxamacker/cbor, crypto/x509, oras-go, tspclient-go) on arbitrary bytes is a runtime fact that is explored (exploration_* keys), not proved")
 	w.Set("part1", "nil-ability lattice: evaluated in Coq against C12_Model (model = implementation, and the oracle spec_ok on the implementation's observation)")
 	if err := explore(a, rng, w, id); err != nil {
 		return err
